@@ -75,11 +75,20 @@ def draw_detector(rng, kinds=('grid', 'grid', 'points_cart', 'points_sph'),
              'optics': stored, 'npts': n, 'far': 'r' not in coords})
 
 
-def draw_scatterer(rng, kind, extent=(1.5, 1.5), origin=(0, 0), big=False):
+def draw_scatterer(rng, kind, extent=(1.5, 1.5), origin=(0, 0), big=False,
+                   grid=None):
+    """``grid`` = {'shape', 'spacing', 'origin'} of the detector the particle
+    will be seen by: sometimes the particle sits *exactly* on a pixel row /
+    column (or exactly above a pixel), where the scattering angles are
+    exactly 0, pi/2 or pi."""
     def center():
         c = draw_center(rng, extent)
         c[0] = round(c[0] + origin[0], 4)
         c[1] = round(c[1] + origin[1], 4)
+        if grid is not None and rng.random() < 0.25:
+            for ax in rng.choice([(0,), (1,), (0, 1)]):
+                k = rng.randrange(grid['shape'][ax])
+                c[ax] = k * grid['spacing'][ax] + grid['origin'][ax]
         return c
     if kind == 'sphere':
         r = rfloat(rng, 0.2, 1.6 if big else 0.9, 4)
